@@ -19,6 +19,8 @@ import (
 	"fmt"
 	"io"
 	"math/rand"
+	"os"
+	"path/filepath"
 	"regexp"
 	"strings"
 	"sync"
@@ -133,6 +135,7 @@ func (e *env) newSess(rng *rand.Rand) {
 func (e *env) fuzz(rng *rand.Rand, n int) {
 	u := e.w.U
 	repos := []string{"r", "r", "r", "r", "other", "a/b", "r/n", "blobs", "index.json", "x/oci-layout", "manifests/x", "R", "a//b", "-a", "a_", "a..b", "..", "r/../q", "%2e%2e", "r%2fn", "_x",
+		"notes.txt", "notes.txt/sub", // (grammar-valid names that are a regular file in the root directory, see batch)
 		strings.Repeat("a", 300), strings.Repeat("a/", 200) + "a", strings.Repeat("a", 255), "a/" + strings.Repeat("b", 254), "r\x00", "r ", "r%00"}
 	var digs []string
 	for _, b := range u.Blobs {
@@ -582,6 +585,10 @@ func batch(r *vh.Run, i int, nreq int) {
 	if kind != vh.Mem {
 		root = r.TempDir("c15")
 		defer vh.RemoveAll(root)
+	}
+	if root != "" {
+		// a file somebody keeps next to the repositories (`serve --dir .` is the default): its name is a repository name
+		_ = os.WriteFile(filepath.Join(root, "notes.txt"), []byte("not a repository\n"), 0o644)
 	}
 	c := vh.Conf(kind, root, vh.Neutral)
 	c.Storage.GC.RepoUploadMax = 5
